@@ -75,7 +75,7 @@ impl IndexData {
              (re.compile(r'debug_assert_eq!\(\s*INDEX_ENTRY_SIZE as usize, written,\s*"[^"]*"\s*\);'),
               'assert(INDEX_ENTRY_SIZE as usize == written);', None, 'R6-debug_assert->proof obligation')],
        spec=WRITE_POST % dict(onto='ser_entry_onto(old(out).sunk(), *self)'),
-       before=[('out.write_all(&self.tag', 'proof { reveal(ser_entry_onto); }\n        ')]),
+       prologue='proof { reveal(ser_entry_onto); }'),
     Raw('}\nimpl<T: Tag> Header<T> {\n'),
     Fn(HDR, 'write', impl='impl<T> Header<T> where T: Tag,',
        subs=[IMPLW, ret(), ('for entry in &self.index_entries', 'for entry in vi: &self.index_entries', 1, 'R15-for-loop-ghost-iterator-name')],
